@@ -406,7 +406,10 @@ def zsLoop {ρ} (O : RawObj ρ) : Nat → ZObj ρ → Bytes → Except DErr Byte
 
 def zsDecompress {ρ} (O : RawObj ρ) (z : ZObj ρ) (data : Bytes) : Except DErr Bytes × ZObj ρ :=
   if data.isEmpty then (.ok [], z)
-  else match zstdFeed O z data with
+  else
+    -- the previous frame ended exactly at the end of the last input: a fresh `decompressobj`
+    let z := if O.eof z.st then ZObj.fresh O else z
+    match zstdFeed O z data with
     | .error e => (.error (DErr.ofZ e), z)
     | .ok (out, z') => zsLoop O (data.length + 1) z' out
 
